@@ -10,6 +10,7 @@ import (
 const blockSz = 32 * 1024
 
 var fileSizes = []int64{64, 200, 512, 1024, 4096, 20000, blockSz, blockSz + 100, 2 * blockSz, 100_000, 256 * 1024, 1 << 20}
+var tinyFileSizes = []int64{1, 8, 30} // smaller than any record: every write rotates
 var shardNums = []int{1, 2, 3, 16, 16, 1000, 5000}
 var bpsVals = []uint{1, 64, 512, 4096, 65536}
 
@@ -29,8 +30,14 @@ func genConfig(rng *vrt.Rand, small bool) Config {
 	} else {
 		c.FileSize = fileSizes[rng.Intn(len(fileSizes))]
 	}
+	if rng.Chance(0.03) {
+		c.FileSize = tinyFileSizes[rng.Intn(len(tinyFileSizes))]
+	}
 	c.Sync = byte(rng.Intn(3))
 	c.BPS = bpsVals[rng.Intn(len(bpsVals))]
+	if c.Sync != 2 && rng.Chance(0.2) {
+		c.BPS = 0 // legal unless the strategy is Threshold
+	}
 	return c
 }
 
@@ -47,6 +54,16 @@ func genKeys(rng *vrt.Rand, n int) [][]byte {
 		case rng.Chance(0.08):
 			// binary key with varint-looking bytes
 			k = []byte{0x80, 0xff, byte(i), 0x01, 0x00, 0x96}
+		case rng.Chance(0.04):
+			// a key that extends an earlier key (prefix of another), by a zero byte or a digit
+			if i > 0 {
+				k = append(append([]byte{}, keys[rng.Intn(i)]...), []byte{0x00, '0', 0xff}[rng.Intn(3)])
+			} else {
+				k = []byte{0x00}
+			}
+		case rng.Chance(0.01):
+			// a key longer than the two-byte varint range
+			k = []byte(fmt.Sprintf("huge%d-%s", i, strings.Repeat("y", rng.Range(16384, 17000))))
 		case style == 0:
 			k = []byte(fmt.Sprintf("k%d", i))
 		case style == 1:
@@ -74,7 +91,10 @@ type Swarm struct {
 	lastAct string
 }
 
-var valClasses = []string{"empty", "tiny", "small", "mid", "boundary", "blocks", "overfile"}
+var valClasses = []string{"empty", "tiny", "small", "mid", "boundary", "blocks", "overfile", "varint"}
+
+// lengths on the width boundaries of the varints of the record header, and exact block payloads
+var varintValLens = []int{63, 64, 65, 8191, 8192, 8193, blockSz - 7, 2*blockSz - 14, 1048575, 1048576}
 
 func newSwarm(rng *vrt.Rand, ops []string, maxSteps int) *Swarm {
 	s := &Swarm{W: map[string]int{}, ovh: 12}
@@ -93,6 +113,7 @@ func newSwarm(rng *vrt.Rand, ops []string, maxSteps int) *Swarm {
 	s.ValW[1] += 2
 	// large values are expensive: keep them a minority
 	s.ValW[5] = min(s.ValW[5], 1)
+	s.ValW[7] = min(s.ValW[7], 1)
 	if rng.Chance(0.5) {
 		s.Steps = rng.Range(3, 12)
 	} else {
@@ -144,6 +165,18 @@ func (s *Swarm) valLen(rng *vrt.Rand, r *Runner, keyLen int) int {
 			return int(r.Cfg.FileSize) + rng.Range(-40, 40)
 		}
 		return rng.Range(1, 64)
+	case "varint":
+		n := varintValLens[rng.Intn(len(varintValLens))]
+		if n > 100_000 && !rng.Chance(0.05) { // the 1 MiB lengths are expensive: rare
+			n = varintValLens[rng.Intn(6)]
+		}
+		if rng.Chance(0.3) {
+			n -= keyLen // so that key+value sits on the boundary instead
+			if n < 0 {
+				n = 0
+			}
+		}
+		return n
 	}
 	return 1
 }
@@ -260,6 +293,7 @@ func (s *Swarm) genPlain(rng *vrt.Rand, restartCfg func() *Config) func(r *Runne
 		case "backup":
 			backups++
 			op.N = backups
+			op.F = float64(rng.Pick([]int{5, 1, 1, 1})) // how the destination is named (see backupDir)
 		}
 		prev = op
 		return op
@@ -571,7 +605,7 @@ func init() {
 			nkeys = rng.Range(0, 6)
 		}
 		s.Keys = genKeys(rng, max(nkeys, 1))
-		s.ValW = []int{1, 5, 1, 0, 0, 0, 0}
+		s.ValW = []int{1, 5, 1, 0, 0, 0, 0, 0}
 		s.W["iter"] += 6
 		s.W["put"] += 4
 		s.W["list"] += 1
@@ -866,7 +900,7 @@ func init() {
 		}
 		s := newSwarm(rng, []string{"put", "del", "batch"}, 10)
 		s.W["put"] += 5
-		s.ValW = []int{1, 6, 2, 0, 0, 0, 0}
+		s.ValW = []int{1, 6, 2, 0, 0, 0, 0, 0}
 		if rng.Chance(0.25) {
 			s.ValW[4] = 2 // a record near / across a block boundary
 		}
